@@ -133,3 +133,36 @@ Theorem C06_forced_norm : forall (normalized : bool) rg cu,
                  /\ received log = Some (VBool normalized)).
 Proof. exact sigma_v_systematics_forces_normalisation. Qed.
 Print Assumptions C06_forced_norm.
+
+(* constructors: the joint classes hand data and BOTH flags to the right parts (KinLikelihood is built by its real constructor, so a
+   positional mix-up of normalized / sigma_sys_error_include would show); the base class builds the documented class per type *)
+Require Import C06.Ctor.
+Theorem C06_ctor_ddt_gauss_kin : forall (inc nrm : bool) zl zs mu sg j0 j1 v0 v1 (cm cj : val) rg cu,
+  exists o,
+  yields Ctor.Gc 80 (CClass "DdtGaussKinLikelihood" src_DdtGaussKinLikelihood_init) None [Ctor.num zl; Ctor.num zs; Ctor.num mu; Ctor.num sg]
+    (kin_args (VList [Ctor.num v0; Ctor.num v1]) (VList [Ctor.num j0; Ctor.num j1]) cm cj inc nrm) rg cu o cu []
+  /\ field o ["_kinlikelihood"; "_normalized"] = Some (VBool nrm)
+  /\ field o ["_kinlikelihood"; "_sigma_sys_error_include"] = Some (VBool inc)
+  /\ field o ["_kinlikelihood"; "_sigma_v_measured"] = Some (VList [Ctor.num v0; Ctor.num v1])
+  /\ field o ["_kinlikelihood"; "_j_model"] = Some (VList [Ctor.num j0; Ctor.num j1])
+  /\ field o ["_kinlikelihood"; "_error_cov_measurement"] = Some cm
+  /\ field o ["_kinlikelihood"; "_error_cov_j_sqrt"] = Some cj
+  /\ field o ["_ddt_gauss_likelihood"; "_ddt_mean"] = Some (Ctor.num mu)
+  /\ field o ["_ddt_gauss_likelihood"; "_ddt_sigma"] = Some (Ctor.num sg)
+  /\ field o ["num_data"] = Some (VInt (1 + 2)).
+Proof. exact ddt_gauss_kin_ctor. Qed.
+Theorem C06_ctor_ddt_hist_kin : forall (inc nrm : bool) zl zs (samples weights : val) j0 j1 v0 v1 (cm cj : val) rg cu,
+  exists o,
+  yields Ctor.Gc 80 (CClass "DdtHistKinLikelihood" src_DdtHistKinLikelihood_init) None [Ctor.num zl; Ctor.num zs; samples]
+    (kin_args (VList [Ctor.num v0; Ctor.num v1]) (VList [Ctor.num j0; Ctor.num j1]) cm cj inc nrm ++ [("ddt_weights", weights)]) rg cu o cu []
+  /\ field o ["_kinlikelihood"; "_normalized"] = Some (VBool nrm)
+  /\ field o ["_kinlikelihood"; "_sigma_sys_error_include"] = Some (VBool inc)
+  /\ field o ["_kinlikelihood"; "_sigma_v_measured"] = Some (VList [Ctor.num v0; Ctor.num v1])
+  /\ field o ["_kinlikelihood"; "_j_model"] = Some (VList [Ctor.num j0; Ctor.num j1])
+  /\ field o ["_tdLikelihood"; "normalized"] = Some (VBool nrm)
+  /\ field o ["_tdLikelihood"; "ddt_weights"] = Some weights
+  /\ field o ["_tdLikelihood"; "args"] = Some (VList [Ctor.num zl; Ctor.num zs; samples]).
+Proof. exact ddt_hist_kin_ctor. Qed.
+Theorem C06_ctor_table : Forall ctor_ok Ctor.ALLTYPES.
+Proof. exact ctor_table. Qed.
+Print Assumptions C06_ctor_table.
